@@ -39,6 +39,8 @@ def encode_arg(st, v):
         return [v.e]
     if isinstance(v, SOpaque):
         return [v.e]
+    if type(v).__name__ == "SText":
+        return [z3.Int(f"{v.name}$id"), V._z(v.offset), V._z(v.length)]
     if isinstance(v, tuple):
         out = [z3.IntVal(len(v))]
         for x in v:
